@@ -434,6 +434,108 @@ def run_redefine(ctx, shape, how, first):
                                     'first': first})
 
 
+def run_fixture(ctx, scheme, shape):
+    """The library's own test fixture (oslo_policy.fixture.HttpCheckFixture /
+    HttpsCheckFixture) is used in the same process before or after a real
+    remote check: under the fixture the decision is the fixture's verdict;
+    outside it the remote side is asked about the ENFORCED policy name, with
+    the target and credentials, and its reply decides."""
+    from oslo_policy import _external, fixture, policy
+    common.set_ctx(ctx)
+    url = scheme + '://authz.example/%(name)s/check'
+    rules = {'direct': {'p': url},
+             'alias': {'p': 'rule:r1', 'r1': 'rule:r2', 'r2': url},
+             'not': {'p': 'not rule:r1', 'r1': url},
+             'or': {'p': 'role:nobody or rule:r1', 'r1': url}}[shape]
+    enf = common.mk_enforcer(rules=policy.Rules.from_dict(rules))
+    order = str(ctx.choice('order', ['fixture-first', 'real-first',
+                                     'fixture-twice-around']))
+    verdict = bool(ctx.bool('fixture_verdict'))
+    reply = str(ctx.choice('reply', ['True', 'False']))
+    calls = []
+
+    class _Stub:
+        import requests as _r
+        exceptions = _r.exceptions
+
+        @staticmethod
+        def post(u, **kw):
+            calls.append((u, kw))
+
+            class R:
+                text = reply
+
+                def close(self):
+                    pass
+            return R()
+    saved = _external.requests
+    _external.requests = _Stub
+    fx = (fixture.HttpCheckFixture if scheme == 'http'
+          else fixture.HttpsCheckFixture)
+    neg = shape == 'not'
+    out = []
+
+    def under_fixture():
+        f = fx(return_value=verdict)
+        f.setUp()
+        try:
+            n = len(calls)
+            got = bool(enf.enforce('p', {'name': 's1'}, {'roles': ['m']}))
+            out.append(('fixture', got))
+            ctx.require(got == (verdict != neg) and len(calls) == n,
+                        'fixture:verdict-under-the-fixture',
+                        detail={'shape': shape, 'order': order, 'got': got,
+                                'verdict': verdict,
+                                'requests_made': len(calls) - n})
+        finally:
+            f.cleanUp()
+
+    def real():
+        del calls[:]
+        got = bool(enf.enforce('p', {'name': 's1'}, {'roles': ['m']}))
+        out.append(('real', got))
+        payload = None
+        if calls:
+            kw = calls[0][1]
+            payload = kw.get('data') or kw.get('json') or {}
+        import json as _json
+        rule_sent = payload.get('rule') if payload else None
+        if isinstance(rule_sent, str) and rule_sent.startswith('"'):
+            rule_sent = _json.loads(rule_sent)
+        ctx.require(len(calls) == 1 and rule_sent == 'p' and
+                    got == ((reply == 'True') != neg),
+                    'fixture:real-check-after-or-before-the-fixture',
+                    detail={'shape': shape, 'order': order, 'got': got,
+                            'reply': reply, 'requests_made': len(calls),
+                            'rule_sent': repr(rule_sent)})
+    try:
+        try:
+            if order == 'fixture-first':
+                under_fixture()
+                real()
+            elif order == 'real-first':
+                real()
+                under_fixture()
+            else:
+                under_fixture()
+                real()
+                under_fixture()
+        except Exception as exc:
+            ctx.require(False, 'fixture:exception',
+                        key='fixture:exception:%s' % type(exc).__name__,
+                        detail={'shape': shape, 'order': order,
+                                'exception': repr(exc)[:200]})
+        ctx.observe('outcomes', out)
+        ctx.cover('fixture:' + order)
+    finally:
+        _external.requests = saved
+
+
+def cubes_fixture(tier, seed):
+    return [{'scheme': s, 'shape': sh} for s in ('http', 'https')
+            for sh in ('direct', 'alias', 'not', 'or')]
+
+
 def cubes_redefine(tier, seed):
     return [{'shape': s, 'how': h, 'first': f}
             for s in ('direct', 'not', 'and', 'chain', 'or')
@@ -459,14 +561,16 @@ HARNESSES = {
               'solver_timeout_ms': 120000},
     'inline': {'fn': run_inline, 'cubes': cubes_inline},
     'redefine': {'fn': run_redefine, 'cubes': cubes_redefine},
+    'fixture': {'fn': run_fixture, 'cubes': cubes_fixture},
 }
 REQUIRED_COVER = ['alias:evaluated', 'alias:default-name', 'inline:compared',
                   'redefine:undefined', 'redefine:raises',
-                  'redefine:via-default']
+                  'redefine:via-default', 'fixture:fixture-first',
+                  'fixture:real-first']
 
 
 def cube_weight(hname, p):
-    if hname == 'redefine':
+    if hname in ('redefine', 'fixture'):
         return 1
     if hname == 'alias':
         return 10 ** sum(NSLOTS[t] for t in p['templates'])
